@@ -8,6 +8,7 @@ import (
 	"strconv"
 	"strings"
 	"sync"
+	"syscall"
 	"testing"
 
 	"github.com/AdguardTeam/golibs/cache"
@@ -42,7 +43,17 @@ func (o Op) value() []byte {
 	if o.Big <= 0 {
 		return o.Val
 	}
-	bigOnce.Do(func() { bigBuf = make([]byte, bigBufLen) })
+	bigOnce.Do(func() {
+		// Mapped, not made: a 5 GiB span of the Go heap is cleared as a whole
+		// (5 GiB resident) as soon as any part of it reuses memory the process
+		// has freed before, and it doubles the collector's heap target; 16
+		// shards of the thorough tier ran the machine out of memory that way.
+		// An anonymous mapping stays untouched.
+		var err error
+		if bigBuf, err = syscall.Mmap(-1, 0, bigBufLen, syscall.PROT_READ|syscall.PROT_WRITE, syscall.MAP_ANON|syscall.MAP_PRIVATE|syscall.MAP_NORESERVE); err != nil {
+			bigBuf = make([]byte, bigBufLen)
+		}
+	})
 	return bigBuf[:min(o.Big, bigBufLen)]
 }
 
